@@ -420,6 +420,9 @@ func (x Expr) Has(data any) bool {
 					}
 				}
 			} else {
+				// The marker is shared by the siblings of prev, the next one
+				// has to be expanded as well.
+				stack[len(stack)-1] = di &^ descentFlag
 				stack = append(stack, prev)
 			}
 		case Root:
